@@ -132,7 +132,7 @@ class ExcSpec(object):
 # request classes
 
 OK_METHODS = ['prims', 'echo', 'inners', 'multi', 'noargs', 'nothing', 'sub',
-              'strict']
+              'strict', 'pa', 'poly']
 
 
 def build_request(uni, in_prot, rclass, rng):
